@@ -31,3 +31,12 @@ claim("C10",
       "constructors) against the exact values, plus thin members (angles down to 2e-12 rad, pitch within 1e-6 of 90 deg) via the "
       "bigint mirror. Tolerances follow the conditioning of the arccos-based formulas (stated in evidence).",
       "TLA+ Representations + TLC + exact replay and bigint mirror", "DESIGN.md section 5, C10")
+claim("C12",
+      "SlerpArray.tla abstracts an array on a one-parameter subgroup to (sign, NaN) per row and specifies remove_jumps "
+      "(parity of detected jumps) and slerp_nan (remove_jumps, then fill each gap on the left neighbour's side); TLC explores "
+      "every sign pattern x interior NaN mask (N=7 quick / 9 thorough), checks NoJumpAfterRJ, FilledContinuesLeft, "
+      "NoJumpBetweenValid, Idempotent, ZeroGapsZeroJumps and emits the full transition table plus all exact interpolation "
+      "cases; the harness concretises four rational subgroups and compares rows to 1e-12 (remove_jumps, q_correct, slerp_nan "
+      "both modes, both copies of slerp), checks relational endpoint classes (LERP branch, orthogonal, nearly antipodal), and "
+      "TLC validates call sequences recorded on live QuaternionArray objects (TraceSlerp).",
+      "TLA+ SlerpArray + TLC (exhaustive) + forward replay and trace validation", "DESIGN.md section 5, C12")
